@@ -335,14 +335,15 @@ def r30_cli_flow(ctx):
             tpv, fmv = [U(e) for e in n.targets[0].elts]
             pf = pts.call_params[2] if len(pts.call_params) > 2 else \
                 "print_format"
-            for i_ in walk_no_nested(pts.node):
-                if isinstance(i_, ast.If) and U(i_.test) == pf and i_.orelse:
-                    okp = any(
-                        isinstance(x, ast.Return) and isinstance(
-                            x.value, ast.Call) and
-                        U(x.value.func).endswith(".date_format") and
-                        [U(a) for a in x.value.args] == [fmv, tpv]
-                        for x in i_.orelse)
+            from ..flow import path_conds
+            for x in walk_no_nested(pts.node):
+                if isinstance(x, ast.Return) and isinstance(
+                        x.value, ast.Call) and U(x.value.func).endswith(
+                            ".date_format") and \
+                        [U(a) for a in x.value.args] == [fmv, tpv]:
+                    conds = [(U(t), pol) for t, pol in path_conds(x)]
+                    if (pf, False) in conds:
+                        okp = True
     rep.check(okf and okp, rule, ctx.fkey(dp, None, "as-parsed"), dp.loc(),
               "an ISO 8601 argument is re-printed with the expression it "
               "was parsed with unless --print-format is given",
